@@ -151,12 +151,12 @@ PROPS = {
         unproved=[READER_UNPROVED], explanation='open proved, per-operation bound bounded'),
     'C17': dict(
         level='other',
-        level_text='Proved (Verus): absence of arithmetic overflow and out-of-bounds indexing in every function under contract (write path, varint, metadata) under the stated physical bounds. The unsafe two-ended buffer of the sorter (alloc/dealloc layout, fits/remaining arithmetic, insert with reallocation, iter) is checked by Kani harnesses on the real unsafe code with all CBMC pointer/bounds/overflow checks, bounded in sizes.',
-        level_note=ASSUME_PHYS + '; Entries/EntryBoundAlignedBuffer (unsafe): Kani, bounded sizes; lifetime-extending transmutes are not decided by any installed verifier (typing argument)',
-        technique='Verus safety obligations (overflow, bounds) on extracted real code + bounded Kani harnesses on the unsafe buffer',
-        kani=[dict(name='c17_buffer_layout_alloc_dealloc', kind='bounded', bound='requested sizes 1..=4097'), dict(name='c17_fits_exact_no_overflow', kind='bounded', bound='capacity <= 256, any consistent (entries_len, bounds_count), key/value <= 8 bytes'), dict(name='c17_entries_insert_realloc_iter', kind='bounded', bound='capacity 16 or 32, two inserts with key <= 4 and value <= 10 bytes (fit, one and two doublings), read back through iter()', tier='thorough', timeout=3000)], native=[], witness=[],
-        unproved=['Entries / EntryBoundAlignedBuffer unsafe code', 'reader-side slicing (Block::entry_at)'], assumptions=[ASSUME_PHYS],
-        explanation='safe write path proved; unsafe sorter buffer pending'),
+        level_text='Proved (Verus, unbounded): absence of arithmetic overflow/underflow and of out-of-range slice ranges or indices in every function under contract -- the write path, varint, metadata, block decoding, the cursors, and the bookkeeping of the sorter\'s two-ended buffer (Entries::insert with its recursive doubling, reallocate_buffer, fits, remaining, ... : every `buffer[a..][..b]`, `copy_from_slice`, `cast_slice_mut` and `bounds[i] = ..` is a discharged precondition, for all entry sizes incl. larger than the buffer). The three unsafe primitives behind the buffer (raw alloc / slice::from_raw_parts in new, deref, deref_mut, plus align_to) are ASSUMED contracts in Verus and checked on the real unsafe code by Kani: layout agreement alloc/dealloc (bounded sizes), fits() exactness (bounded), and refusal of every unrepresentable size (complete).',
+        level_note=ASSUME_PHYS + '; EntryBoundAlignedBuffer::{new,deref,deref_mut} and align_to: assumed contracts (unsafe), Kani-checked bounded; Entries::iter / sort_by_key (closures over cast slices) outside the verified set; lifetime-extending transmutes are not decided by any installed verifier (typing argument)',
+        technique='Verus safety obligations (overflow, bounds, slice ranges) on extracted real code + Kani harnesses on the unsafe allocation primitives',
+        kani=[dict(name='c17_buffer_layout_alloc_dealloc', kind='bounded', bound='requested sizes 1..=4097'), dict(name='c17_fits_exact_no_overflow', kind='bounded', bound='capacity <= 256, any consistent (entries_len, bounds_count), key/value <= 8 bytes'), dict(name='c17_buffer_new_refuses_unrepresentable_sizes', kind='complete', bound='none: every size > isize::MAX - 15 (loop-free)')], native=[], witness=[],
+        unproved=['EntryBoundAlignedBuffer unsafe primitives (assumed contracts; Kani bounded)', 'Entries::iter / sort_by_key slicing', 'lifetime-extending transmutes'], assumptions=[ASSUME_PHYS],
+        explanation='index/overflow obligations of the real bookkeeping code are discharged by Verus for all sizes; only the raw allocation primitives are assumed'),
     'C18': dict(
         level='proof',
         level_text='Unbounded deductive proof (Verus) on the real BlockWriter::insert with the documented assert! modelled as divergence: whenever insert returns, the block under construction has strictly ascending keys and its bytes are exactly the framed entries; finish() emits exactly those bytes plus the offset table. (Writer-level clauses are added as the Writer contracts are discharged.)',
